@@ -83,6 +83,19 @@ func main() {
 			sub = rest[0]
 		}
 		dump(p, e, sub)
+	case "gcnf":
+		p := Load(opts.repo)
+		e := ComputeEffects(p)
+		for _, fn := range p.Funcs {
+			if len(rest) > 0 && !strings.Contains(p.FuncKey(fn), rest[0]) {
+				continue
+			}
+			g := BuildGCNF(p, e, fn)
+			fmt.Printf("%s  (%d paths, %d cut points) %s\n", p.FuncKey(fn), g.NumPaths, len(g.Cuts), g.Undecided)
+			for _, s := range g.Strings() {
+				fmt.Println("   ", s)
+			}
+		}
 	case "explain":
 		os.Exit(runExplain(opts, rest))
 	case "tables":
